@@ -12,6 +12,14 @@ the real parser only (tools/props/c11.py), and is *not* claimed as a theorem.
 namespace MontePyVerif.C11
 open MontePyVerif MontePyVerif.Reader MontePyVerif.Refine MontePyVerif.Flatten MontePyVerif.LineFacts
 
+/-- **C11_tables**: the constants of `constants.py` the reader model and the Spec rest on, as the translator finds
+    them now (`Gen/Constants.lean`): a tab is 8 columns (the Spec's tab stops), continuation needs 5 blanks (the
+    Spec's columns 1-5), the ASCII ceiling is 127, and the column limit is 128 from 6.2 on and 80 before. -/
+theorem C11_tables :
+    Gen.tabSize = 8 ∧ Gen.blankSpaceContinue = 5 ∧ Gen.asciiCeiling = 127 ∧
+    maxLineLength (6, 2, 0) = some 128 ∧ maxLineLength (6, 3, 0) = some 128 ∧
+    maxLineLength (6, 1, 0) = some 80 ∧ maxLineLength (5, 1, 60) = some 80 ∧ maxLineLength (5, 0, 0) = none := by decide
+
 /-! ## `_clean_line` and the line ends -/
 
 /-- an ASCII line body: no byte ≥ 127, no CR, no LF -/
